@@ -14,7 +14,7 @@ PROP = "C12"
 RULE = ("generated states: a generated file-based world (0-7 vehicles on a few sites within 3 km incl. co-located ones, petrol and electric, charge "
         "levels around the range thresholds, human drivers, 0-3 fleets (ids that may contain one another) with multi-fleet and no-fleet vehicles, generated valid_dispatch_states "
         "and thresholds) is loaded, then every vehicle is given an arbitrary activity class and every human driver an on/off-shift state, and 0-7 "
-        "waiting requests are added (co-located origins, exact distance ties, some already holding a dispatched vehicle, one fleet each when "
+        "waiting requests (named q0.. or, in a third of the cases, like the vehicles) are added (co-located origins, exact distance ties, some already holding a dispatched vehicle, one fleet each when "
         "fleets exist); Dispatcher.generate_instructions is called once. Oracle, per fleet: vehicles distinct, requests distinct, every vehicle "
         "eligible by an independent re-statement of the rule (activity in configured set, driver available, range > matching threshold, not an "
         "under-charged base charger, member of the fleet), every request eligible (waiting, unassigned, of that fleet), #pairs = min(#eligible "
